@@ -33,21 +33,21 @@ func (m MessageCertificateVerify) Type() Type {
 
 // Marshal encodes the Handshake.
 func (m *MessageCertificateVerify) Marshal() ([]byte, error) {
-	if m.HashAlgorithm > 0xFF || m.SignatureAlgorithm > 0xFF {
+	// DTLS 1.2 encodes hash and signature as one byte each; the RSA-PSS
+	// schemes of (D)TLS 1.3 use the whole two-byte SignatureScheme.
+	if !m.SignatureAlgorithm.IsPSS() && (m.HashAlgorithm > 0xFF || m.SignatureAlgorithm > 0xFF) {
 		return nil, dtlserrors.ErrInvalidSignHashAlgorithm
 	}
-
-	// CertificateVerify in DTLS 1.2 encodes hash/signature as 1 byte each.
-	scheme := tls.SignatureScheme(uint16(m.HashAlgorithm)<<8 | uint16(m.SignatureAlgorithm))
+	encoded := (&signaturehash.Algorithm{Hash: m.HashAlgorithm, Signature: m.SignatureAlgorithm}).Marshal()
 	var alg signaturehash.Algorithm
-	if err := alg.Unmarshal(scheme); err != nil {
+	if err := alg.Unmarshal(tls.SignatureScheme(binary.BigEndian.Uint16(encoded))); err != nil ||
+		alg.Hash != m.HashAlgorithm || alg.Signature != m.SignatureAlgorithm {
 		return nil, dtlserrors.ErrInvalidSignHashAlgorithm
 	}
 
 	out := make([]byte, 1+1+2+len(m.Signature))
 
-	out[0] = byte(m.HashAlgorithm)
-	out[1] = byte(m.SignatureAlgorithm)
+	copy(out, encoded)
 	binary.BigEndian.PutUint16(out[2:], uint16(len(m.Signature))) //nolint:gosec // G115
 	copy(out[4:], m.Signature)
 
